@@ -4,7 +4,7 @@
    iteration order of the output-file map), Cfg/GoMod.v (the go.mod reader).
    The model describes /repo with the repairs of fixes/ applied (in particular c09-*.diff and
    c08-file-level-config.diff: the settings of an output file are those of its first mock). *)
-From Mk Require Import Lib.Bytes Cfg.Fs Cfg.GoMod Cfg.Pipeline Cfg.Pipeline_proofs Cfg.GoMod_proofs.
+From Mk Require Import Lib.Bytes Cfg.Fs Cfg.GoMod Cfg.Pipeline Cfg.Pipeline_proofs Cfg.GoMod_proofs Cfg.Env Cfg.Env_proofs.
 
 (* mockery never terminates by an unrecovered panic: for every world and every order.
    (The only panic site left in the model is srcPkg.GoFiles[0] in NewTemplateGenerator; it
@@ -64,6 +64,23 @@ Proof.
   split; [exact old_comment_wrong | exact old_block_wrong].
 Qed.
 Print Assumptions C09_modpath_old_refuted.
+
+(* MOCKERY_<KEY> values: a value is taken for a boolean exactly when its lower-cased form is
+   the word true or false, and then strconv.ParseBool of that form succeeds - the panic(err) of
+   the environment callback is unreachable; for a boolean key any other value is refused by the
+   decoder.  With case FOLDING in the test (strings.EqualFold) the panic is reachable. *)
+Theorem C09_env_bool : forall v,
+  classify v <> EPanic /\ env_bool_key v <> EnvCrash /\
+  (forall b, classify v = EBool b -> parse_bool (lower v) = Some b) /\
+  ((exists b, classify v = EBool b) <-> (lower v = B "true" \/ lower v = B "false")).
+Proof.
+  intros v. split; [apply classify_no_panic|]. split; [apply env_bool_key_no_crash|].
+  split; [apply classify_bool | apply classify_bool_iff].
+Qed.
+Print Assumptions C09_env_bool.
+Theorem C09_env_fold_refuted : exists v, classify_fold v = EPanic.
+Proof. eexists. exact classify_fold_panics. Qed.
+Print Assumptions C09_env_fold_refuted.
 
 (* Non-vacuity of C09_modpath: the same four spellings, with a realistic remainder. *)
 Example C09_modpath_example :
